@@ -120,6 +120,20 @@ def _plane_obj(lentil, st, lam, N):
     m = None if mk['k'] == 'none' else np.array(mk['m'])
     px = None if st['px'] == [] else (float(rf(st['px'][0])), float(rf(st['px'][1])))
     cls = st['cls']
+    # arrays may reach the library in any memory layout: Fortran order, a transposed view, a strided view of a larger buffer
+    lay = st.get('layout', 'C')
+    if lay != 'C':
+        def relay(x):
+            if not isinstance(x, np.ndarray) or x.ndim != 2:
+                return x
+            if lay == 'F':
+                return np.asfortranarray(x)
+            if lay == 'T':
+                return np.ascontiguousarray(x.T).T
+            big = np.zeros((2 * x.shape[0], 2 * x.shape[1]), dtype=x.dtype)
+            big[::2, ::2] = x
+            return big[::2, ::2]                       # 'strided'
+        a, o = relay(a), relay(o)
     kw = dict(amplitude=a, opd=o, mask=m, pixelscale=px)
     if cls == 'Pupil':
         p = lentil.Pupil(focal_length=None if st['z'] == [] else float(rf(st['z'])), **kw)
